@@ -263,6 +263,9 @@ func runCaseByIndex(prop, tier string, seed uint64, idx int, keepDir string) *Ca
 	if sc.GWId != "" {
 		res.Cov["cases_with_gwId_argument"]++
 	}
+	if sc.Hot {
+		res.Cov["cases_with_the_rare_choices_taken_together"]++
+	}
 	if sc.PermanentAfterAnnual {
 		res.Cov["cases_permanent_crop_after_annual_crops"]++
 	}
